@@ -644,7 +644,7 @@ func init() {
 			t.e.close()
 		}
 		tokensDeployments(c)
-		c.close([]string{
+		c.close([]string{"c04:no-email-claim-configured", "c04:bearer-presented-again-after-expiry",
 			"aud:ok", "aud:err", "aud:corpus", "aud:old-panic", "claim:corpus", "claim:in-token", "claim:not-in-token", "claim:body:s", "claim:fail:err",
 			"hdr:token", "hdr:none",
 			"cb:ok", "cb:err:verify", "cb:err:unverified", "cb:err:missing", "cb:err:profile", "cb:established",
